@@ -521,4 +521,89 @@ def expandF (s : St) : Act → List FAct
   | .adminDelete => [FAct.adminDelete]
   | .watchFires => [FAct.watchFires]
 
+/-!
+## Origin of delete events (extension mqtt, round 2): `Origin`, `OSt`, `ostep`
+
+`St.watch` only COUNTS the delete events of the session store that are in flight. Two different
+things emit one: `SessionManager.delDB`, called by a connection's own teardown
+(`closeAndDelSession` of a connection with a clean session that is not superseded), and the admin
+endpoint (`httpDeleteSessionHandler`). `Broker.watchDelete` cannot tell them apart, and the event is
+handled asynchronously — possibly after the client id has connected again.
+
+`OSt` wraps `St` (unchanged) with
+* `origins` — ghost: the origin of every queued event, oldest first (`origins.length = base.watch`);
+  an admin event remembers who was registered when the session was deleted (its *victim*);
+* `own` — `SessionManager.ownDeletes[cid]` of `fixes/C16-own-delete-event.patch`: the number of
+  deletes this broker issued itself (`delDB`) whose event has not come back yet.
+
+`ostep fixed` runs `step true` on the base (the takeover-teardown patch is always in) and
+* `fixed = false` (the code before `C16-own-delete-event.patch`; witness only): keeps the base
+  step as it is and only records the origins;
+* `fixed = true` (repaired `delDB` / `watchDelete`): `delDB` first looks the key up — nothing
+  stored ⇒ no delete, no event; otherwise it increments `own` BEFORE the delete. `watchDelete`
+  drops an event while `own > 0` (decrementing it) and runs `deleteSession` otherwise. The broker
+  has no access to `origins`: it counts.
+-/
+
+inductive Origin
+  | teardownOf (k : Nat)           -- `delDB` in the teardown of connection `k`
+  | admin (victim : Option Nat)    -- admin endpoint; `victim` = the connection registered at that moment
+deriving DecidableEq, Repr
+
+def Origin.isTeardown : Origin → Bool
+  | .teardownOf _ => true
+  | .admin _ => false
+
+structure OSt where
+  base : St
+  origins : List Origin
+  own : Nat
+
+def oinit : OSt := ⟨init, [], 0⟩
+
+/-- `closeAndDelSession` of connection `k` gets as far as `delDB`: it is not superseded (ownership
+check of the takeover-teardown patch) and its session is a clean one -/
+def reachesDelDB (s : St) (k : Nat) : Bool := !superseded s k && (s.sess (s.conn k).sess).clean
+
+/-- number of teardown-origin events in a queue -/
+def countT (l : List Origin) : Nat := (l.filter Origin.isTeardown).length
+
+/-- bookkeeping of a teardown step (`cleanup k` / `writeErr k`) whose base step led to `b` -/
+def oTeardown (fixed : Bool) (s : OSt) (k : Nat) (b : St) : OSt :=
+  if reachesDelDB s.base k then
+    if fixed then
+      if s.base.db.isSome then ⟨b, s.origins ++ [Origin.teardownOf k], s.own + 1⟩
+      else ⟨{ b with watch := s.base.watch }, s.origins, s.own⟩   -- nothing stored: no delete, no event
+    else ⟨b, s.origins ++ [Origin.teardownOf k], s.own⟩
+  else ⟨b, s.origins, s.own⟩
+
+/-- One atomic step with origins; `none` = not enabled (exactly when the base step is not). -/
+def ostep (fixed : Bool) (s : OSt) (a : Act) : Option OSt :=
+  match step true s.base a with
+  | none => none
+  | some b =>
+    match a with
+    | .cleanup k => some (oTeardown fixed s k b)
+    | .writeErr k => some (oTeardown fixed s k b)
+    | .adminDelete => some ⟨b, s.origins ++ [Origin.admin s.base.client], s.own⟩
+    | .watchFires =>
+      if fixed && decide (0 < s.own) then
+        -- the event is taken for the echo of an own `delDB`: dropped
+        some ⟨{ s.base with watch := s.base.watch - 1 }, s.origins.tail, s.own - 1⟩
+      else some ⟨b, s.origins.tail, s.own⟩
+    | _ => some ⟨b, s.origins, s.own⟩
+
+/-- Run a list of steps, skipping those that are not enabled. -/
+def orunActs (fixed : Bool) : OSt → List Act → OSt
+  | s, [] => s
+  | s, a :: rest =>
+    match ostep fixed s a with
+    | some s' => orunActs fixed s' rest
+    | none => orunActs fixed s rest
+
+/-- all-or-nothing execution -/
+def orunAll (fixed : Bool) : OSt → List Act → Option OSt
+  | s, [] => some s
+  | s, a :: rest => (ostep fixed s a).bind (fun s' => orunAll fixed s' rest)
+
 end EgVerif.BrokerSessions
